@@ -385,6 +385,39 @@ func c13Release(e *Env) {
 				break
 			}
 		}
+		if !okGuard && !isNodeRecycle(f) {
+			// a helper that confines its own recycling to the walk from head up to the read node
+			if d := w.DeclOf(f); d != nil && d.Decl.Body != nil {
+				hinfo := d.Pkg.TypesInfo
+				hpar := parents(d.Decl)
+				all, some := true, false
+				ast.Inspect(d.Decl.Body, func(m ast.Node) bool {
+					hc, ok := m.(*ast.CallExpr)
+					if !ok || !isNodeRecycle(calleeOf(hinfo, hc)) {
+						return true
+					}
+					some = true
+					in := false
+					for p := hpar[hc]; p != nil; p = hpar[p] {
+						if fs, ok := p.(*ast.ForStmt); ok {
+							if be, ok := unparen(fs.Cond).(*ast.BinaryExpr); ok && be.Op == token.NEQ {
+								a, b := usedVar(hinfo, be.X), usedVar(hinfo, be.Y)
+								if (a == headF && b == readF) || (a == readF && b == headF) {
+									in = true
+								}
+							}
+						}
+					}
+					if !in {
+						all = false
+					}
+					return true
+				})
+				if some && all {
+					okGuard, how = true, "the helper only recycles nodes before the read node"
+				}
+			}
+		}
 		if okGuard {
 			r.OKd(rule, key, w.Pos(call.Pos()), "node recycling in Release is guarded", how)
 		} else {
